@@ -1,6 +1,7 @@
 package props
 
 import (
+	"fmt"
 	"go/ast"
 	"go/constant"
 	"go/token"
@@ -26,6 +27,7 @@ func c04ProbeRules(c *core.Ctx, sp *packages.Package) {
 	c04Substr(c, sp)
 	c04SigCall(c, sp)
 	c04Conversions(c, sp)
+	c04Quotient(c, sp)
 }
 
 var c04EvalTypes = map[string]string{"EvalInt": "TInt", "EvalFloat": "TFloat", "EvalString": "TString", "EvalDuration": "TDuration", "EvalBool": "TBool", "EvalRegex": "TRegex", "EvalTime": "TTime", "EvalMissing": "TMissing"}
@@ -767,4 +769,219 @@ func c04Conversions(c *core.Ctx, sp *packages.Package) {
 	} else if good {
 		c.Ok("C04.timezone", "fillScope#time")
 	}
+}
+
+// c04Quotient (seed C04-3): a float quotient computed by a built-in function has a divisor that cannot be zero where the
+// quotient is used: 0/0 is NaN, and a NaN result compares false with everything — `sigma("x") > 3` silently never fires.
+// Accepted proofs, per division in a Call method of tick/stateful:
+//   - the divisor is a non-zero constant;
+//   - on every path to the division a test has established divisor != 0 (guard provenance over go/cfg, conditions taken apart
+//     at !, && and ||), where the divisor is looked at through math.Sqrt, math.Abs and float64(): they are zero only at zero;
+//   - the divisor is a counter: incremented on every path before the division, and otherwise only ever set to the literal 0;
+//   - the divisor is `X - c`: a test has established X > c or X >= c+1;
+//   - the quotient is only stored (V = a / b, V a field read nowhere else): then every return statement that reads V needs one
+//     of the proofs above at the return.
+func c04Quotient(c *core.Ctx, sp *packages.Package) {
+	c.Rule("C04.quotient", "A4 (guard provenance): seed C04-3: in the Call method of a built-in function a float division's divisor is proved non-zero where the quotient is used — a constant, a counter incremented before, or a test on every path (taken apart at !, && and ||; seen through Sqrt, Abs and float64); a quotient that is only stored in a field needs the proof at every return that reads the field. 0/0 is NaN and NaN compares false with everything: the alert condition never fires")
+	info := sp.TypesInfo
+	n := 0
+	unwrap := func(e ast.Expr) ast.Expr {
+		for {
+			e = ast.Unparen(e)
+			call, ok := e.(*ast.CallExpr)
+			if !ok || len(call.Args) != 1 {
+				return e
+			}
+			if tv, ok := info.Types[call.Fun]; ok && tv.IsType() {
+				e = call.Args[0]
+				continue
+			}
+			if cal := core.Callee(info, call); cal != nil && cal.Pkg() != nil && cal.Pkg().Path() == "math" && (cal.Name() == "Sqrt" || cal.Name() == "Abs") {
+				e = call.Args[0]
+				continue
+			}
+			return e
+		}
+	}
+	// every assignment to the field anywhere in the package is `= 0`-literal or ++
+	counterField := func(fv *types.Var) bool {
+		okAll, incs := true, 0
+		for _, f := range core.AllFuncs(sp) {
+			ast.Inspect(f.Decl, func(nd ast.Node) bool {
+				switch s := nd.(type) {
+				case *ast.AssignStmt:
+					for i, l := range s.Lhs {
+						if sel, ok := ast.Unparen(l).(*ast.SelectorExpr); ok && info.Uses[sel.Sel] == fv {
+							if s.Tok != token.ASSIGN || len(s.Rhs) != len(s.Lhs) {
+								okAll = false
+								continue
+							}
+							tv, ok := info.Types[s.Rhs[i]]
+							if !ok || tv.Value == nil || constant.Sign(tv.Value) != 0 {
+								okAll = false
+							}
+						}
+					}
+				case *ast.IncDecStmt:
+					if sel, ok := ast.Unparen(s.X).(*ast.SelectorExpr); ok && info.Uses[sel.Sel] == fv {
+						if s.Tok == token.INC {
+							incs++
+						} else {
+							okAll = false
+						}
+					}
+				case *ast.UnaryExpr:
+					if s.Op == token.AND {
+						if sel, ok := ast.Unparen(s.X).(*ast.SelectorExpr); ok && info.Uses[sel.Sel] == fv {
+							okAll = false
+						}
+					}
+				}
+				return true
+			})
+		}
+		return okAll && incs > 0
+	}
+	proveNZ := func(body *ast.BlockStmt, site ast.Node, d ast.Expr) bool {
+		if tv, ok := info.Types[d]; ok && tv.Value != nil {
+			return constant.Sign(tv.Value) != 0
+		}
+		text := types.ExprString(d)
+		nz := func(cond ast.Expr, branch bool) bool { return impliesNonZero(info, cond, branch, text) }
+		if guardedBy(body, site, text, nz) {
+			return true
+		}
+		// counter
+		if sel, ok := d.(*ast.SelectorExpr); ok {
+			if fv, ok := info.Uses[sel.Sel].(*types.Var); ok && fv.IsField() && counterField(fv) {
+				never := func(ast.Expr, bool) bool { return false }
+				inc := func(nd ast.Node) bool {
+					s, ok := nd.(*ast.IncDecStmt)
+					return ok && s.Tok == token.INC && types.ExprString(ast.Unparen(s.X)) == text
+				}
+				if guardedByEst(body, site, text, never, inc) {
+					return true
+				}
+			}
+		}
+		// X - c
+		if be, ok := d.(*ast.BinaryExpr); ok && be.Op == token.SUB {
+			if tv, ok := info.Types[be.Y]; ok && tv.Value != nil {
+				if cv, exact := constant.Int64Val(constant.ToInt(tv.Value)); exact {
+					xt := types.ExprString(ast.Unparen(be.X))
+					lo := func(cond ast.Expr, branch bool) bool { return impliesBound(info, cond, branch, xt, cv+1, false) }
+					if guardedBy(body, site, xt, lo) {
+						return true
+					}
+				}
+			}
+		}
+		return false
+	}
+	for _, f := range core.AllFuncs(sp) {
+		if f.Decl.Recv == nil || f.Decl.Body == nil || f.Decl.Name.Name != "Call" {
+			continue
+		}
+		recvName := core.RecvName(f.Decl)
+		seen := false
+		k := 0
+		// parents of quotients that are plain stores
+		stored := map[*ast.BinaryExpr]ast.Expr{}
+		ast.Inspect(f.Decl.Body, func(nd ast.Node) bool {
+			if as, ok := nd.(*ast.AssignStmt); ok && len(as.Lhs) == 1 && len(as.Rhs) == 1 {
+				if be, ok := ast.Unparen(as.Rhs[0]).(*ast.BinaryExpr); ok && be.Op == token.QUO {
+					stored[be] = as.Lhs[0]
+				}
+			}
+			return true
+		})
+		ast.Inspect(f.Decl.Body, func(nd ast.Node) bool {
+			be, ok := nd.(*ast.BinaryExpr)
+			if !ok || be.Op != token.QUO {
+				return true
+			}
+			if tv, ok := info.Types[be]; !ok || tv.Value != nil {
+				return true
+			}
+			if b, ok := info.TypeOf(be).Underlying().(*types.Basic); !ok || b.Info()&types.IsFloat == 0 {
+				return true
+			}
+			if !seen {
+				seen = true
+				c.Analysed(f)
+			}
+			n++
+			k++
+			construct := fmt.Sprintf("%s.Call#quotient%d", recvName, k)
+			d := unwrap(be.Y)
+			if proveNZ(f.Decl.Body, be, d) {
+				c.Ok("C04.quotient", construct)
+				return true
+			}
+			// only stored: the proof is due where the stored value is returned
+			if lhs, ok := stored[be]; ok {
+				if sel, ok := ast.Unparen(lhs).(*ast.SelectorExpr); ok {
+					if fv, ok := info.Uses[sel.Sel].(*types.Var); ok && fv.IsField() {
+						readElsewhere := false
+						for _, g := range core.AllFuncs(sp) {
+							if g.Decl == f.Decl {
+								continue
+							}
+							ast.Inspect(g.Decl, func(m ast.Node) bool {
+								if s2, ok := m.(*ast.SelectorExpr); ok && info.Uses[s2.Sel] == fv {
+									// a plain store elsewhere (Reset) is no read
+									readElsewhere = readElsewhere || !c04IsStoreTarget(g.Decl, s2)
+								}
+								return true
+							})
+						}
+						allRets, rets := true, 0
+						ast.Inspect(f.Decl.Body, func(m ast.Node) bool {
+							ret, ok := m.(*ast.ReturnStmt)
+							if !ok || ret.Pos() < be.Pos() {
+								return true
+							}
+							reads := false
+							ast.Inspect(ret, func(x ast.Node) bool {
+								if s2, ok := x.(*ast.SelectorExpr); ok && info.Uses[s2.Sel] == fv {
+									reads = true
+								}
+								return true
+							})
+							if reads {
+								rets++
+								if !proveNZ(f.Decl.Body, ret, d) {
+									allRets = false
+								}
+							}
+							return true
+						})
+						if !readElsewhere && allRets && rets > 0 {
+							c.Ok("C04.quotient", construct, "stored; proved at the returns that read it")
+							return true
+						}
+					}
+				}
+			}
+			c.Fail("C04.quotient", construct, be.Pos(), "%s.Call divides by %s, which no test, counter or constant on the way proves non-zero where the quotient is used: a flat series (or the first points) gives 0/0 = NaN, and a NaN result compares false with everything — the condition built on it never fires and never recovers", recvName, types.ExprString(be.Y))
+			return true
+		})
+	}
+	c.Floor("C04.quotient", "float divisions in Call methods of built-in functions", n, 2)
+}
+
+// c04IsStoreTarget: sel is the whole left side of a plain assignment in decl.
+func c04IsStoreTarget(decl *ast.FuncDecl, sel *ast.SelectorExpr) bool {
+	is := false
+	ast.Inspect(decl, func(n ast.Node) bool {
+		if as, ok := n.(*ast.AssignStmt); ok && as.Tok == token.ASSIGN {
+			for _, l := range as.Lhs {
+				if ast.Unparen(l) == ast.Expr(sel) {
+					is = true
+				}
+			}
+		}
+		return true
+	})
+	return is
 }
